@@ -427,3 +427,56 @@ func VF_C15_template() {
 	_ = text
 	vfReach("C15_template")
 }
+
+func init() { vfRegister("VF_C03_helpers_text", VF_C03_helpers_text) }
+
+// vfShipped is the text of the container the generator produced for itself.
+func vfShipped() string { return vfReadRepoFile("internal/gontainer/gontainer.go") }
+
+func vfNormalize(body string) string {
+	f := strings.Fields(body)
+	return strings.Join(f, " ")
+}
+
+// VF_C03_helpers_text: the run-time helpers executed by VF_C03_getenv & co.
+// (compiled into internal/gontainer) are, modulo white space and the import
+// aliases, the helpers the current templates emit.
+func VF_C03_helpers_text() {
+	_, em, _, ok := vfGenerateO(input.Input{}, false)
+	vfAssert(ok, "the empty configuration is accepted")
+	if !ok {
+		return
+	}
+	shipped := vfEmitted(vfShipped())
+	vfAssert(shipped.ParseErr == "", "the shipped container parses")
+	alias := func(e skel.Emitted) map[string]string {
+		m := map[string]string{}
+		for _, i := range e.Imports {
+			m[i.Alias] = i.Path
+		}
+		return m
+	}
+	ea, sa := alias(em), alias(shipped)
+	canon := func(body string, al map[string]string) string {
+		out := vfNormalize(body)
+		for a, p := range al {
+			out = strings.ReplaceAll(out, a+".", "<"+p+">.")
+		}
+		return out
+	}
+	n := 0
+	for _, m := range em.Methods {
+		if !strings.HasPrefix(m.Name, "_") {
+			continue
+		}
+		for _, sm := range shipped.Methods {
+			if sm.Name == m.Name {
+				n++
+				vfAssert(canon(m.Body, ea) == canon(sm.Body, sa), "the shipped helper is the helper the templates emit")
+				vfAssert(m.Params == sm.Params || canon(m.Params, ea) == canon(sm.Params, sa), "helper parameters")
+			}
+		}
+	}
+	vfAssert(n == 5, "all five helpers are generated and shipped")
+	vfReach("C03_helpers_text")
+}
